@@ -1359,7 +1359,7 @@ def oracles_keyseq(line, real_out):
                 r, _ = oracles_key(f'keypack|{g}|{i}|{bits}|{int(sg)}|{v}', o)
                 for x in r:
                     x['what'] += ' (one item object encoded again after its fields were changed)'
-                recs += [x for x in r if x['prop'] in ('C13', 'C14')][:1]
+                recs += [dict(x, prop=q) for x in r[:1] for q in ('C13', 'C14')] if r else []
             elif op[0] == 'U' and not o.startswith('EXC'):
                 f = o.split(',')
                 g, i, bits, sg, v = int(f[0]), int(f[1]), int(f[2]), f[3] == '1', int(f[4])
